@@ -297,3 +297,291 @@ Section Registered.
     destruct (spec_render fuel (T :: anc)) as [tr|e]; cbn; auto.
   Qed.
 End Registered.
+
+(* ------------------------------------------------------------------ acceptance *)
+
+Lemma orphans_perm_iff : forall reg P l l', Permutation l l' ->
+  (flat_map (orphans_of reg P) l = [] <-> flat_map (orphans_of reg P) l' = []).
+Proof.
+  intros. split; apply orphans_perm; auto. now apply Permutation_sym.
+Qed.
+
+Lemma finalize_err1 : forall ord reg e, loop1 reg reg = Err e -> finalize ord reg = Err e.
+Proof. intros. unfold finalize. now rewrite H. Qed.
+
+Lemma finalize_after_loop1 : forall ord reg P,
+  orders_ok ord -> reg_wf reg -> loop1 reg reg = Ok P ->
+  match flat_map (orphans_of reg P) reg with
+  | [] => exists fr, finalize ord reg = Ok fr
+  | _ :: _ => finalize ord reg = Err EOrphanBlock
+  end.
+Proof.
+  intros ord reg P Hord [Hnd Hbl] E1. unfold finalize. rewrite E1. cbn [rbind].
+  assert (HP := loop1_parents_ok reg P Hnd E1).
+  destruct Hord as (Ho2 & Hob & Hoi & Hop).
+  assert (Hord : orders_ok ord) by (repeat split; auto).
+  destruct (loop2_ok ord reg P (o_loop2 ord reg) Hord (conj Hnd Hbl) HP) as (orph & tb & Hr & Ho & Htnd & Htk & Htall).
+  { intros x Hx. eapply Permutation_in; [apply Ho2|exact Hx]. }
+  { eapply Permutation_NoDup; [|exact Hnd]. apply Permutation_map. apply Permutation_sym. apply Ho2. }
+  rewrite Hr. cbn [rbind fst snd].
+  assert (Hinv0 : tb_inv reg P [] tb).
+  { split; auto. split.
+    - intros n m Hm.
+      assert (Hn : In n (names (o_loop2 ord reg))).
+      { apply Htk. apply alookup_in in Hm. apply (in_map fst) in Hm. exact Hm. }
+      apply in_map_iff in Hn. destruct Hn as (t & Htn & Hti). subst n.
+      destruct (Htall t Hti) as (m' & Hm' & Hnd' & _). congruence.
+    - intros t Hin. assert (Hin' : In t (o_loop2 ord reg)).
+      { eapply Permutation_in; [apply Permutation_sym; apply Ho2|exact Hin]. }
+      destruct (Htall t Hin') as (m & Hm & _ & Hl). exists m. split; auto. }
+  destruct HP as (HPk & HPall & HPkeys).
+  destruct (inherit_pass_ok ord reg P (o_inherit ord P) [] tb Hord Hnd (conj HPk (conj HPall HPkeys))) as (tb' & Hr' & Hinv'); auto.
+  { intros n ps Hin. apply in_alookup; auto. eapply Permutation_in; [apply Hoi|exact Hin]. }
+  { eapply Permutation_NoDup; [|exact HPk]. apply Permutation_map. apply Permutation_sym. apply Hoi. }
+  rewrite Hr'. cbn [rbind].
+  destruct (flat_map (orphans_of reg P) reg) eqn:E.
+  - assert (Hnil : orph = []).
+    { rewrite Ho. eapply orphans_perm; [apply Permutation_sym; apply Ho2|exact E]. }
+    rewrite Hnil. eexists. reflexivity.
+  - destruct orph; auto. exfalso.
+    assert (flat_map (orphans_of reg P) reg = []).
+    { eapply orphans_perm; [apply Ho2|]. now rewrite <- Ho. }
+    congruence.
+Qed.
+
+(* the verdict (accepted, or which error) does not depend on the iteration orders *)
+Lemma finalize_class_indep : forall ord ord' reg,
+  orders_ok ord -> orders_ok ord' -> reg_wf reg ->
+  rmap (fun _ => tt) (finalize ord reg) = rmap (fun _ => tt) (finalize ord' reg).
+Proof.
+  intros ord ord' reg H H' Hwf. destruct (loop1 reg reg) as [P|e] eqn:E1.
+  - assert (A := finalize_after_loop1 ord reg P H Hwf E1).
+    assert (B := finalize_after_loop1 ord' reg P H' Hwf E1).
+    destruct (flat_map (orphans_of reg P) reg).
+    + destruct A as [fr ->]. destruct B as [fr' ->]. reflexivity.
+    + now rewrite A, B.
+  - now rewrite (finalize_err1 ord reg e E1), (finalize_err1 ord' reg e E1).
+Qed.
+
+(* chains never loop, so find_parents succeeds on them *)
+Lemma an_suffix : forall reg n l, anc_names reg n l ->
+  forall p, In p l -> exists l', anc_names reg p l' /\ length l' < length l.
+Proof.
+  induction 1; intros q Hq; [contradiction|].
+  destruct Hq as [->|Hq].
+  - exists l. split; auto.
+  - destruct (IHanc_names q Hq) as (l' & Ha & Hlen). exists l'. split; auto. cbn. lia.
+Qed.
+
+Lemma an_no_self : forall reg n l, anc_names reg n l -> ~ In n l.
+Proof.
+  intros reg n l Ha Hin. destruct (an_suffix _ _ _ Ha n Hin) as (l' & Ha' & Hlen).
+  assert (l = l') by (eapply an_det; eauto). subst. lia.
+Qed.
+
+Lemma an_nodup : forall reg n l, anc_names reg n l -> NoDup l.
+Proof.
+  induction 1; constructor; auto. eapply an_no_self; eauto.
+Qed.
+
+Lemma an_in_names : forall reg n l, anc_names reg n l -> incl l (names reg).
+Proof.
+  induction 1; intros x Hx; [contradiction|].
+  destruct Hx as [->|Hx]; auto.
+  destruct (an_self _ _ _ H1) as [pt Hpt]. destruct (get_tpl_some _ _ _ Hpt) as [Hin <-].
+  now apply in_map.
+Qed.
+
+Lemma find_parents_complete : forall reg l f start t acc,
+  anc_names reg (c_name t) l -> get_tpl reg (c_name t) = Some t ->
+  length l < f -> ~ In start l -> (forall p, In p l -> ~ In p acc) -> NoDup l ->
+  find_parents f reg start t acc = Ok (rev (acc ++ l)).
+Proof.
+  intros reg l. induction l as [|p l IH]; intros f start t acc Ha Hg Hf Hs Hacc Hnd.
+  - destruct f; [inversion Hf|]. cbn.
+    inversion Ha as [t0 n0 Hg0 He0 | t0 n0 p0 l0 Hg0 He0 Ha0]; subst.
+    assert (t0 = t) by congruence. subst. rewrite He0. now rewrite app_nil_r.
+  - destruct f; [inversion Hf|]. cbn [find_parents].
+    inversion Ha as [t0 n0 Hg0 He0 | t0 n0 p0 l0 Hg0 He0 Ha0]; subst.
+    assert (t0 = t) by congruence. subst. rewrite He0.
+    destruct (an_self _ _ _ Ha0) as [parent Hp]. rewrite Hp.
+    destruct (get_tpl_some _ _ _ Hp) as [_ Hn].
+    assert (E1 : N.eqb p start = false).
+    { apply N.eqb_neq. intros ->. apply Hs. now left. }
+    assert (E2 : existsb (N.eqb p) acc = false).
+    { destruct (existsb (N.eqb p) acc) eqn:E; auto. apply existsb_exists in E.
+      destruct E as (x & Hx & Hxe). apply N.eqb_eq in Hxe. subst x. exfalso. eapply Hacc; eauto. now left. }
+    rewrite E1, E2. cbn [orb]. apply NoDup_cons_iff in Hnd. destruct Hnd as [Hnp Hndl].
+    rewrite (IH f start parent (acc ++ [c_name parent])); auto.
+    + rewrite Hn, <- app_assoc. reflexivity.
+    + now rewrite Hn.
+    + rewrite Hn. exact Hp.
+    + cbn in Hf. lia.
+    + intros H. apply Hs. now right.
+    + intros q Hq Hin. apply in_app_or in Hin. destruct Hin as [Hin|[Heq|[]]].
+      * eapply Hacc; eauto. now right.
+      * rewrite Hn in Heq. subst q. auto.
+Qed.
+
+Lemma loop1_complete : forall reg todo, NoDup (names reg) -> incl todo reg ->
+  (forall t, In t todo -> exists l, anc_names reg (c_name t) l) ->
+  exists P, loop1 reg todo = Ok P.
+Proof.
+  intros reg todo Hnd. induction todo as [|t todo IH]; intros Hincl Hall; cbn [loop1].
+  - eauto.
+  - destruct (Hall t (or_introl eq_refl)) as [l Ha].
+    assert (Hg : get_tpl reg (c_name t) = Some t) by (apply get_tpl_in; auto; apply Hincl; now left).
+    rewrite (find_parents_complete reg l (S (length reg)) (c_name t) t [] Ha Hg).
+    + cbn [rbind]. destruct IH as [P HP].
+      { intros x Hx. apply Hincl. now right. } { intros x Hx. apply Hall. now right. }
+      rewrite HP. cbn [rbind]. eauto.
+    + assert (length l <= length (names reg)).
+      { apply NoDup_incl_length; [eapply an_nodup; eauto|eapply an_in_names; eauto]. }
+      unfold names in H. rewrite map_length in H. lia.
+    + eapply an_no_self; eauto.
+    + intros p _ [].
+    + eapply an_nodup; eauto.
+Qed.
+
+(* orphan check of one template against the specification's acceptance rule *)
+Lemma existsb_rev : forall A (g : A -> bool) l, existsb g (rev l) = existsb g l.
+Proof.
+  induction l; cbn; auto. rewrite existsb_app, IHl. cbn. rewrite orb_false_r. apply orb_comm.
+Qed.
+
+Lemma filter_nil_forallb : forall A (g : A -> bool) l, filter g l = [] <-> forallb (fun x => negb (g x)) l = true.
+Proof.
+  induction l; cbn; [tauto|]. destruct (g a); cbn.
+  - split; discriminate.
+  - exact IHl.
+Qed.
+
+Lemma forallb_ext' : forall A (g h : A -> bool) l, (forall x, g x = h x) -> forallb g l = forallb h l.
+Proof. induction l; cbn; intros; auto. now rewrite H, IHl. Qed.
+
+Lemma orphans_spec : forall ts P T anc,
+  NoDup (tnames ts) -> (forall t, In t ts -> NoDup (map fst (blocks_of (t_body t)))) ->
+  is_chain ts (T :: anc) -> alookup (t_name T) P <> None -> ancl P (t_name T) = map t_name anc ->
+  (orphans_of (map compiled ts) P (compiled T) = [] <->
+   match anc with [] => true | _ => forallb (defined_in anc) (spec_top (t_body T)) end = true).
+Proof.
+  intros ts P T anc Hnd Hbl Hc Hsome Hancl. unfold orphans_of. cbn [c_name compiled].
+  unfold ancl in Hancl. destruct (alookup (t_name T) P) as [ps|]; [|congruence].
+  assert (Hps : ps = rev (map t_name anc)) by (rewrite <- Hancl; now rewrite rev_involutive).
+  unfold orphan_blocks. destruct anc as [|p anc].
+  - subst ps. cbn. tauto.
+  - destruct ps as [|q ps]. { destruct (rev_head_last _ (map t_name (p :: anc)) 0%N) as [r Hr]; [discriminate|]. congruence. }
+    rewrite Hps. rewrite filter_nil_forallb. cbn [c_top compiled]. rewrite top_of_spec_top.
+    assert (Heq : forall b,
+      negb (negb (existsb (fun p0 => match get_tpl (map compiled ts) p0 with
+                                     | Some pt => amem b (c_blocks pt) | None => false end)
+                          (rev (map t_name (p :: anc))))) = defined_in (p :: anc) b).
+    { intros b. rewrite negb_involutive, existsb_rev. unfold defined_in.
+      assert (Hin : forall t, In t (p :: anc) -> In t ts).
+      { intros t Ht. eapply is_chain_in; eauto. now right. }
+      clear -Hin Hnd Hbl. induction (p :: anc) as [|t l IH]; cbn [map existsb]; auto.
+      rewrite get_compiled by (auto; apply Hin; now left).
+      rewrite IH by (intros x Hx; apply Hin; now right). f_equal.
+      unfold amem. rewrite compiled_lookup by (apply Hbl; apply Hin; now left).
+      destruct (defines t b); reflexivity. }
+    split; intros H.
+    + erewrite forallb_ext'; [exact H|]. intros b. symmetry. apply Heq.
+    + erewrite forallb_ext'; [exact H|]. intros b. apply Heq.
+Qed.
+
+Lemma is_chain_tail : forall ts t p anc, is_chain ts (t :: p :: anc) -> is_chain ts (p :: anc).
+Proof. intros ts t p anc H. cbn in H. tauto. Qed.
+
+Lemma flat_map_nil_in : forall A B (g : A -> list B) l x, flat_map g l = [] -> In x l -> g x = [].
+Proof.
+  induction l; cbn; intros x H Hin; [contradiction|].
+  apply app_eq_nil in H. destruct H. destruct Hin as [->|Hin]; auto.
+Qed.
+
+Section Accept.
+  Variable ord : orders.
+  Variable ts : list template.
+  Hypothesis Hord : orders_ok ord.
+  Hypothesis Hnd : NoDup (tnames ts).
+
+  (* accepted => every top-level block of a child is defined by an ancestor *)
+  Theorem accepted_chain_ok : forall fr, register ord ts = Ok fr ->
+    forall ch, is_chain ts ch -> spec_accepts ch = true.
+  Proof.
+    intros fr Hreg. destruct (reg_facts ord ts fr Hreg) as (Hca & Hfin & Hbl).
+    assert (Hwf : reg_wf (map compiled ts)) by (eapply reg_wf_compiled; eauto).
+    destruct (finalize_ok ord _ fr Hord Hwf Hfin) as (Htp & HP & Horph & _).
+    induction ch as [|T anc IH]; intros Hc; [reflexivity|].
+    cbn [spec_accepts]. apply andb_true_iff. split.
+    - assert (HinT : In T ts) by (eapply is_chain_in; eauto; now left).
+      destruct (registered_chain ord ts fr Hord Hnd Hreg T anc Hc) as (Hancl & _ & _).
+      destruct HP as (_ & HPall & _).
+      destruct (HPall (compiled T) (in_map compiled ts T HinT)) as (Hs & _ & _). cbn in Hs.
+      apply (orphans_spec ts (f_parents fr) T anc Hnd Hbl Hc Hs Hancl).
+      eapply flat_map_nil_in; [exact Horph|]. now apply in_map.
+    - destruct anc as [|p anc]; [reflexivity|]. apply IH. eapply is_chain_tail; eauto.
+  Qed.
+
+  Hypothesis Hsyn : forall t, In t ts -> NoDup (map fst (blocks_of (t_body t))).
+  Hypothesis Hchains : forall t, In t ts -> exists anc, is_chain ts (t :: anc).
+
+  Lemma loop1_chains : exists P, loop1 (map compiled ts) (map compiled ts) = Ok P.
+  Proof.
+    apply loop1_complete.
+    - now rewrite names_compiled.
+    - apply incl_refl.
+    - intros c Hc. apply in_map_iff in Hc. destruct Hc as (t & <- & Hin).
+      destruct (Hchains t Hin) as [anc Hch]. exists (map t_name anc).
+      apply (chain_anc ts Hnd _ Hch).
+  Qed.
+
+  Lemma wf_chains : reg_wf (map compiled ts).
+  Proof. eapply reg_wf_compiled; eauto. now apply compile_all_complete. Qed.
+
+  Lemma parents_chain : forall P, loop1 (map compiled ts) (map compiled ts) = Ok P ->
+    forall T anc, is_chain ts (T :: anc) ->
+    alookup (t_name T) P <> None /\ ancl P (t_name T) = map t_name anc.
+  Proof.
+    intros P HP T anc Hc. destruct wf_chains as [Hn _].
+    destruct (loop1_parents_ok _ P Hn HP) as (_ & HPall & _).
+    assert (HinT : In T ts) by (eapply is_chain_in; eauto; now left).
+    destruct (HPall (compiled T) (in_map compiled ts T HinT)) as (Hs & Ha & _). cbn in Hs, Ha.
+    split; auto. eapply an_det; eauto. apply (chain_anc ts Hnd _ Hc).
+  Qed.
+
+  (* every template's chain passes the rule (nested new blocks are not looked at) => accepted *)
+  Theorem chains_ok_accepted :
+    (forall ch, is_chain ts ch -> spec_accepts ch = true) -> exists fr, register ord ts = Ok fr.
+  Proof.
+    intros Hacc. unfold register. rewrite compile_all_complete by auto. cbn [rbind].
+    destruct loop1_chains as [P HP].
+    assert (A := finalize_after_loop1 ord _ P Hord wf_chains HP).
+    destruct (flat_map (orphans_of (map compiled ts) P) (map compiled ts)) eqn:E; auto.
+    exfalso.
+    assert (Hin : In n (flat_map (orphans_of (map compiled ts) P) (map compiled ts))) by (rewrite E; now left).
+    apply in_flat_map in Hin. destruct Hin as (c & Hc & Hn).
+    apply in_map_iff in Hc. destruct Hc as (T & <- & HinT).
+    destruct (Hchains T HinT) as [anc Hch].
+    destruct (parents_chain P HP T anc Hch) as (Hs & Hancl).
+    assert (Hok := Hacc _ Hch). cbn [spec_accepts] in Hok. apply andb_true_iff in Hok. destruct Hok as [Hok _].
+    apply (orphans_spec ts P T anc Hnd Hsyn Hch Hs Hancl) in Hok. rewrite Hok in Hn. contradiction.
+  Qed.
+
+  (* a chain that breaks the rule => rejected with the orphan-block error *)
+  Theorem chain_bad_rejected : forall ch, is_chain ts ch -> spec_accepts ch = false ->
+    register ord ts = Err EOrphanBlock.
+  Proof.
+    intros ch Hch Hbad. unfold register. rewrite compile_all_complete by auto. cbn [rbind].
+    destruct loop1_chains as [P HP].
+    assert (A := finalize_after_loop1 ord _ P Hord wf_chains HP).
+    destruct (flat_map (orphans_of (map compiled ts) P) (map compiled ts)) eqn:E; auto.
+    exfalso. revert Hch Hbad. induction ch as [|T anc IH]; intros Hch Hbad; [discriminate|].
+    cbn [spec_accepts] in Hbad. apply andb_false_iff in Hbad. destruct Hbad as [Hb|Hb].
+    - destruct (parents_chain P HP T anc Hch) as (Hs & Hancl).
+      assert (HinT : In T ts) by (eapply is_chain_in; eauto; now left).
+      assert (Ho : orphans_of (map compiled ts) P (compiled T) = []).
+      { eapply flat_map_nil_in; [exact E|]. now apply in_map. }
+      apply (orphans_spec ts P T anc Hnd Hsyn Hch Hs Hancl) in Ho. congruence.
+    - destruct anc as [|p anc]; [discriminate|]. apply IH; auto. eapply is_chain_tail; eauto.
+  Qed.
+End Accept.
